@@ -19,7 +19,7 @@ import subprocess
 from pathlib import Path
 
 from .. import core
-from ..gen_constructs import gen_file, zoo_file
+from ..gen_constructs import gen_file_all, gen_file, zoo_file
 
 PROP = "C11"
 LEVEL_NOTE = ("theorems hold for every list of files and every behaviour of every rule (returns or raises); that no rule raises on a given input is a "
@@ -317,7 +317,7 @@ def run(tier: str, seed: int, st: core.ProofStatus) -> core.Result:
         if i < 3 or (i >= len(kinds_cycle) and rng.random() < 0.05):
             # prefix sweep: every line-prefix of a valid file, all in one run (each cut leaves some construct unclosed)
             lang = ["py", "ts", "rs"][i % 3]
-            base, _pl, _meta = gen_file(rng, lang, "cut", n_units=4, layout=False)
+            base = gen_file_all(rng, lang, "cut", reps=1)       # every unit kind of the language once: each construct gets cut at each of its lines
             lines = base.split("\n")
             bad_files = [(f"src/cut/prefix_{k:03d}.{lang}", ("\n".join(lines[:k]) + ("\n" if k % 2 else "")).encode("utf-8")) for k in range(1, len(lines))]
             kind = "prefix_sweep"
